@@ -137,58 +137,62 @@ Proof.
     f_equal. f_equal. replace want with (k + (want - k))%nat at 2 by lia. now rewrite my_firstn_add.
 Qed.
 
-(* ---- ReadBytes ---- *)
-Lemma read_bytes_loop_eq : forall fuel len acc r c,
-  read_bytes_loop fuel len acc r c =
-    let have := Z.of_nat (length acc) in
-    if (len <=? have)%Z then (Ok acc, r, c) else
-    match fuel with
-    | O => (Panic, r, c)
-    | S f =>
-        let chunk := Z.min (len - have) CHUNK in
-        let c' := (c + Z.to_N chunk)%N in
-        let '(got, r', e) := read_full (Z.to_nat chunk) (rdata r) (revs r) in
-        match e with
-        | RNil => read_bytes_loop f len (acc ++ got) r' c'
-        | _ => (Err (io_err (acc ++ got) e), r', c')
+(* ---- ReadBytes (c8478d2: exact allocation up to 1 MiB, then a buffer that doubles when it is full) ---- *)
+Lemma read_bytes_loop_eq : forall fuel len cap acc r c,
+  read_bytes_loop fuel len cap acc r c =
+    let '(got, r', e) := read_full (Z.to_nat (cap - Z.of_nat (length acc))) (rdata r) (revs r) in
+    let acc' := acc ++ got in
+    match e with
+    | RNil =>
+        let received := Z.of_nat (length acc') in
+        if (received =? len)%Z then (Ok acc', r', c) else
+        match fuel with
+        | O => (Panic, r', c)
+        | S f => let cap' := (received + Z.min received (len - received))%Z in
+                 read_bytes_loop f len cap' acc' r' (c + Z.to_N cap')%N
         end
+    | _ => (Err (io_err acc' e), r', c)
     end.
 Proof. destruct fuel; reflexivity. Qed.
 
-Lemma CHUNK_val : CHUNK = 4096%Z. Proof. reflexivity. Qed.
-Global Opaque CHUNK.
+Lemma PREALLOC_val : PREALLOC = 1048576%Z. Proof. reflexivity. Qed.
+Global Opaque PREALLOC.
+
+(* loop invariant: the buffer holds what was received, is never longer than requested, and is either not yet full
+   or already as long as requested *)
+Definition buf_ok (len cap : Z) (acc : list N) : Prop :=
+  (Z.of_nat (length acc) <= cap <= len)%Z /\ (Z.of_nat (length acc) < cap \/ cap = len)%Z.
 
 (* fault-free script, enough data: exactly the next [len - |acc|] bytes, whatever the chunking *)
-Lemma read_bytes_loop_ok : forall fuel len acc d es c,
-  fault_free es -> (Z.of_nat (length acc) <= len)%Z ->
+Lemma read_bytes_loop_ok : forall fuel len cap acc d es c,
+  fault_free es -> buf_ok len cap acc ->
   (len - Z.of_nat (length acc) <= Z.of_nat (length d))%Z -> (length d < fuel)%nat ->
   exists es' c', fault_free es' /\
-    read_bytes_loop fuel len acc (mkR d es) c =
+    read_bytes_loop fuel len cap acc (mkR d es) c =
       (Ok (acc ++ firstn (Z.to_nat (len - Z.of_nat (length acc))) d),
        mkR (skipn (Z.to_nat (len - Z.of_nat (length acc))) d) es', c').
 Proof.
-  induction fuel as [|f IH]; intros len acc d es c Hff Hacc Hneed Hfuel; [lia|].
-  rewrite read_bytes_loop_eq. cbv zeta.
-  destruct (Z.leb_spec len (Z.of_nat (length acc))) as [Hle|Hlt].
-  - replace (len - Z.of_nat (length acc))%Z with 0%Z by lia. cbn [Z.to_nat firstn skipn].
-    rewrite app_nil_r. exists es, c. auto.
-  - cbn [rdata revs].
-    pose proof CHUNK_val as HC.
-    set (need := (len - Z.of_nat (length acc))%Z) in *.
-    set (ch := Z.min need CHUNK).
-    assert (1 <= ch <= need)%Z by lia.
-    destruct (read_full_ok es (Z.to_nat ch) d Hff ltac:(lia)) as (es1 & Hff1 & ->).
-    assert (Hl1 : length (firstn (Z.to_nat ch) d) = Z.to_nat ch) by (rewrite firstn_length; lia).
-    destruct (IH len (acc ++ firstn (Z.to_nat ch) d) (skipn (Z.to_nat ch) d) es1 (c + Z.to_N ch)%N Hff1)
+  induction fuel as [|f IH]; intros len cap acc d es c Hff [Hcap Hprog] Hneed Hfuel; [lia|].
+  rewrite read_bytes_loop_eq. cbn [rdata revs].
+  set (h := Z.of_nat (length acc)) in *.
+  set (want := Z.to_nat (cap - h)).
+  destruct (read_full_ok es want d Hff ltac:(lia)) as (es1 & Hff1 & ->). cbv zeta.
+  assert (Hl1 : length (firstn want d) = want) by (rewrite firstn_length; lia).
+  assert (Hrec : Z.of_nat (length (acc ++ firstn want d)) = cap) by (rewrite app_length, Hl1; lia).
+  rewrite Hrec.
+  destruct (Z.eqb_spec cap len) as [->|Hne].
+  - exists es1, c. split; [assumption|]. fold want. reflexivity.
+  - assert (h < cap)%Z by lia.
+    set (cap' := (cap + Z.min cap (len - cap))%Z).
+    destruct (IH len cap' (acc ++ firstn want d) (skipn want d) es1 (c + Z.to_N cap')%N Hff1)
       as (es2 & c2 & Hff2 & ->).
-    + rewrite app_length, Hl1. lia.
-    + rewrite app_length, Hl1, skipn_length. lia.
+    + unfold buf_ok. rewrite Hrec. unfold cap'. lia.
+    + rewrite Hrec, skipn_length. lia.
     + rewrite skipn_length. lia.
-    + exists es2, c2. split; auto.
-      rewrite app_length, Hl1.
-      replace (Z.to_nat (len - Z.of_nat (length acc + Z.to_nat ch))) with (Z.to_nat need - Z.to_nat ch)%nat by lia.
+    + exists es2, c2. split; [assumption|]. rewrite Hrec.
+      replace (Z.to_nat (len - cap)) with (Z.to_nat (len - h) - want)%nat by lia.
       rewrite my_skipn_skipn, <- app_assoc, <- my_firstn_add.
-      replace (Z.to_nat ch + (Z.to_nat need - Z.to_nat ch))%nat with (Z.to_nat need) by lia. reflexivity.
+      replace (want + (Z.to_nat (len - h) - want))%nat with (Z.to_nat (len - h)) by lia. reflexivity.
 Qed.
 
 Theorem read_bytes_roundtrip : forall bs rest es, fault_free es ->
@@ -197,9 +201,12 @@ Theorem read_bytes_roundtrip : forall bs rest es, fault_free es ->
 Proof.
   intros bs rest es Hff. unfold read_bytes.
   destruct (Z.ltb_spec (Z.of_nat (length bs)) 0); [lia|].
-  cbn [rdata].
-  destruct (read_bytes_loop_ok (S (length (bs ++ rest))) (Z.of_nat (length bs)) [] (bs ++ rest) es 0%N Hff)
+  cbn [rdata]. pose proof PREALLOC_val as HP.
+  destruct (read_bytes_loop_ok (S (length (bs ++ rest))) (Z.of_nat (length bs))
+              (Z.min (Z.of_nat (length bs)) PREALLOC) [] (bs ++ rest) es
+              (Z.to_N (Z.min (Z.of_nat (length bs)) PREALLOC)) Hff)
     as (es' & c' & Hff' & ->); cbn [length]; try lia.
+  { unfold buf_ok. cbn [length]. lia. }
   { rewrite app_length. lia. }
   exists es', c'. split; auto.
   rewrite Z.sub_0_r, Nat2Z.id. cbn [app].
@@ -207,59 +214,110 @@ Proof.
   rewrite skipn_app, Nat.sub_diag, skipn_all. reflexivity.
 Qed.
 
-(* every script, every length: total (the fuel never runs out), consumes a prefix of the data, and the
-   allocation (cost) is at most the data actually received plus one chunk *)
-Lemma read_bytes_loop_gen : forall fuel len acc d es c x r' c',
-  (length d < fuel)%nat ->
-  read_bytes_loop fuel len acc (mkR d es) c = (x, r', c') ->
+(* every script, every length: total (the fuel never runs out), consumes a prefix of the data, and everything handed
+   to make after entry is at most 4 x the bytes received after entry: a buffer is replaced only when it is full, the
+   new one is at most twice as long, and a buffer that is not the final one was at least half empty when it was made *)
+Lemma read_bytes_loop_gen : forall fuel len cap acc d es c x r' c',
+  (length d < fuel)%nat -> buf_ok len cap acc ->
+  (cap = len \/ 2 * Z.of_nat (length acc) <= cap)%Z ->
+  read_bytes_loop fuel len cap acc (mkR d es) c = (x, r', c') ->
   x <> Panic /\
-  exists n, (n <= length d)%nat /\ rdata r' = skipn n d /\ (c' <= c + N.of_nat n + 4096)%N /\
-            (forall bs, x = Ok bs -> bs = acc ++ firstn n d /\ Z.of_nat (length bs) = Z.max len (Z.of_nat (length acc))).
+  exists n, (n <= length d)%nat /\ rdata r' = skipn n d /\ (c' <= c + 4 * N.of_nat n)%N /\
+            (forall bs, x = Ok bs -> bs = acc ++ firstn n d /\ Z.of_nat (length bs) = len).
 Proof.
-  induction fuel as [|f IH]; intros len acc d es c x r' c' Hfuel H; [lia|].
-  rewrite read_bytes_loop_eq in H. cbv zeta in H.
-  destruct (Z.leb_spec len (Z.of_nat (length acc))) as [Hle|Hlt].
-  - inversion H; subst. split; [discriminate|]. exists 0%nat. cbn [skipn firstn rdata].
-    split; [lia|]. split; [reflexivity|]. split; [lia|].
-    intros bs Hx. inversion Hx; subst. rewrite app_nil_r. split; [reflexivity | lia].
-  - cbn [rdata revs] in H. pose proof CHUNK_val as HC.
-    set (ch := Z.min (len - Z.of_nat (length acc)) CHUNK) in *.
-    assert (1 <= ch <= 4096)%Z by lia.
-    destruct (read_full (Z.to_nat ch) d es) as [[got r1] e] eqn:E.
-    apply read_full_spec in E. destruct E as (Eg & Er & El & Ee).
-    destruct r1 as [d1 es1]. cbn [rdata] in Er. subst d1.
-    destruct e.
-    + assert (Hg : length got = Z.to_nat ch) by (apply Ee; reflexivity).
-      assert (length got <= length d)%nat.
-      { rewrite Eg, firstn_length. lia. }
-      assert (Hgd : length got = Nat.min (length got) (length d)) by lia.
-      apply IH in H. 2:{ rewrite skipn_length. lia. }
-      destruct H as (Hnp & n & Hn & Hr & Hc & Hbs). split; auto.
-      rewrite skipn_length in Hn.
-      exists (length got + n)%nat.
-      split; [lia|]. split; [rewrite Hr, my_skipn_skipn; reflexivity|]. split; [lia|].
-      intros bs Hx. apply Hbs in Hx. destruct Hx as [-> Hlen]. split.
-      * rewrite <- app_assoc. f_equal. rewrite my_firstn_add. f_equal. exact Eg.
-      * rewrite Hlen. rewrite app_length. lia.
-    + inversion H; subst. split; [discriminate|]. exists (length got). cbn [rdata].
-      assert (length got <= length d)%nat by (rewrite Eg, firstn_length; lia).
-      repeat split; try lia; intros; discriminate.
-    + inversion H; subst. split; [discriminate|]. exists (length got). cbn [rdata].
-      assert (length got <= length d)%nat by (rewrite Eg, firstn_length; lia).
-      repeat split; try lia; intros; discriminate.
+  induction fuel as [|f IH]; intros len cap acc d es c x r' c' Hfuel [Hcap Hprog] Hhalf H; [lia|].
+  rewrite read_bytes_loop_eq in H. cbn [rdata revs] in H.
+  set (h := Z.of_nat (length acc)) in *.
+  destruct (read_full (Z.to_nat (cap - h)) d es) as [[got r1] e] eqn:E.
+  apply read_full_spec in E. destruct E as (Eg & Er & El & Ee).
+  destruct r1 as [d1 es1]. cbn [rdata] in Er. subst d1. cbv zeta in H.
+  assert (Hgd : (length got <= length d)%nat) by (rewrite Eg, firstn_length; lia).
+  destruct e.
+  - assert (Hg : length got = Z.to_nat (cap - h)) by (apply Ee; reflexivity).
+    assert (Hrec : Z.of_nat (length (acc ++ got)) = cap) by (rewrite app_length, Hg; lia).
+    rewrite Hrec in H.
+    destruct (Z.eqb_spec cap len) as [->|Hne].
+    + inversion H; subst x r' c'. split; [discriminate|]. exists (length got). cbn [rdata].
+      split; [lia|]. split; [reflexivity|]. split; [lia|].
+      intros bs Hx. inversion Hx; subst bs. split; [now rewrite <- Eg | exact Hrec].
+    + assert (h < cap)%Z by lia.
+      set (cap' := (cap + Z.min cap (len - cap))%Z) in *.
+      apply IH in H.
+      * destruct H as (Hnp & n & Hn & Hr & Hc & Hbs). split; [exact Hnp|].
+        rewrite skipn_length in Hn.
+        exists (length got + n)%nat.
+        split; [lia|]. split; [rewrite Hr, my_skipn_skipn; reflexivity|].
+        split; [unfold cap' in Hc; lia|].
+        intros bs Hx. apply Hbs in Hx. destruct Hx as [-> Hlen]. split; [|exact Hlen].
+        rewrite <- app_assoc. f_equal. rewrite my_firstn_add. f_equal. exact Eg.
+      * rewrite skipn_length. lia.
+      * unfold buf_ok. rewrite Hrec. unfold cap'. lia.
+      * rewrite Hrec. unfold cap'. lia.
+  - inversion H; subst. split; [discriminate|]. exists (length got). cbn [rdata].
+    repeat split; try lia; intros; discriminate.
+  - inversion H; subst. split; [discriminate|]. exists (length got). cbn [rdata].
+    repeat split; try lia; intros; discriminate.
 Qed.
 
+(* ReadBytes: no panic; a prefix of n <= available bytes is consumed; everything handed to make is at most the
+   up-front buffer min(len, 1 MiB) plus 4 x the bytes received; a success delivers exactly those n = len bytes *)
 Theorem read_bytes_total : forall len r x r' c,
   read_bytes len r = (x, r', c) ->
   x <> Panic /\
-  exists n, (n <= length (rdata r))%nat /\ rdata r' = skipn n (rdata r) /\ (c <= N.of_nat n + 4096)%N /\
+  exists n, (n <= length (rdata r))%nat /\ rdata r' = skipn n (rdata r) /\
+            (c <= 4 * N.of_nat n + 1048576)%N /\ (c <= 4 * N.of_nat n + Z.to_N len)%N /\
             (forall bs, x = Ok bs -> bs = firstn n (rdata r) /\ Z.of_nat (length bs) = len).
 Proof.
   intros len [d es] x r' c H. unfold read_bytes in H. cbn [rdata] in *.
   destruct (Z.ltb_spec len 0).
   - inversion H; subst. split; [discriminate|]. exists 0%nat. cbn. repeat split; try lia; intros; discriminate.
-  - apply read_bytes_loop_gen in H; [|lia]. destruct H as (Hnp & n & Hn & Hr & Hc & Hbs).
-    split; auto. exists n. split; [lia|]. split; [auto|]. split; [lia|].
-    intros bs Hx. apply Hbs in Hx. destruct Hx as [-> Hlen]. split; [reflexivity|].
-    rewrite Hlen. cbn [length]. lia.
+  - pose proof PREALLOC_val as HP.
+    apply read_bytes_loop_gen in H; [|lia|unfold buf_ok; cbn [length]; lia|cbn [length]; lia].
+    destruct H as (Hnp & n & Hn & Hr & Hc & Hbs).
+    split; auto. exists n. split; [lia|]. split; [auto|]. split; [lia|]. split; [lia|].
+    intros bs Hx. apply Hbs in Hx. destruct Hx as [-> Hlen]. split; [reflexivity | exact Hlen].
+Qed.
+
+(* up to the threshold the allocation is exact: one make of [len] bytes, whatever arrives *)
+Theorem read_bytes_exact_alloc : forall len r x r' c,
+  (0 <= len <= 1048576)%Z -> read_bytes len r = (x, r', c) -> c = Z.to_N len.
+Proof.
+  intros len [d es] x r' c Hlen H. unfold read_bytes in H. cbn [rdata] in H.
+  destruct (Z.ltb_spec len 0); [lia|]. pose proof PREALLOC_val as HP.
+  replace (Z.min len PREALLOC) with len in H by lia.
+  rewrite read_bytes_loop_eq in H. cbn [rdata revs length] in H.
+  destruct (read_full (Z.to_nat (len - Z.of_nat 0)) d es) as [[got r1] e] eqn:E.
+  apply read_full_spec in E. destruct E as (_ & _ & _ & Ee). cbv zeta in H. cbn [app] in H.
+  destruct e; try (inversion H; reflexivity).
+  assert (Hg : length got = Z.to_nat (len - Z.of_nat 0)) by (apply Ee; reflexivity).
+  replace (Z.of_nat (length got)) with len in H by lia.
+  rewrite Z.eqb_refl in H. inversion H; reflexivity.
+Qed.
+
+(* readFixedSize + sizeToInt (c8478d2): a size that is handed to ReadBytes / ReadCollection / the caller of PeekSize
+   fits int; a uint64 prefix >= 2^63 is the error ESizeRange for every helper *)
+Lemma read_fixed_size_fits : forall l r v r' c,
+  read_fixed_size l r = (Ok v, r', c) -> (Z.of_N v <= MaxInt64)%Z.
+Proof.
+  intros l r v r' c H. unfold read_fixed_size in H.
+  destruct l; try discriminate;
+    (destruct (read_fixed _ r) as [[[bs|e|] r1] c1]; try discriminate; cbv zeta in H;
+     destruct (N.ltb_spec (Z.to_N MaxInt64) (le_dec bs)) as [Hlt|Hge]; try discriminate;
+     inversion H; subst v; unfold MaxInt64 in *; lia).
+Qed.
+
+Lemma size_prefix_too_big : forall l r bs r1 c1,
+  l <> LBad -> read_fixed (lpt_size l) r = (Ok bs, r1, c1) -> (MaxInt64 < Z.of_N (le_dec bs))%Z ->
+  read_fixed_size l r = (Err ESizeRange, r1, c1) /\
+  peek_size l r = (Err ESizeRange, r1, c1) /\
+  (forall k, read_collection l k r = (Err ESizeRange, r1, c1)) /\
+  read_bytes_with_size l r = (Err ESizeRange, r1, c1) /\
+  (forall f, read_object_with_size l f r = (Err ESizeRange, r1, c1)).
+Proof.
+  intros l r bs r1 c1 Hl Hr Hbig.
+  assert (Hs : read_fixed_size l r = (Err ESizeRange, r1, c1)).
+  { unfold read_fixed_size. destruct l; try congruence; rewrite Hr; cbv zeta;
+      (destruct (N.ltb_spec (Z.to_N MaxInt64) (le_dec bs)); [reflexivity | unfold MaxInt64 in *; lia]). }
+  split; [exact Hs|].
+  unfold peek_size, read_collection, read_bytes_with_size, read_object_with_size. rewrite Hs. repeat split.
 Qed.
